@@ -71,7 +71,15 @@ func (c c14Case) script() (code string, want interface{}) {
 			return "typeof notbound === 'undefined' && typeof x === 'number' && typeof s === 'string'", true
 		}
 	case "throw":
-		switch c.Variant % 3 {
+		switch c.Variant % 6 {
+		case 3:
+			// thrown values that cannot be turned into a message
+			return "throw {toString: function() { throw 2; }}", nil
+		case 4:
+			return "throw {toString: function() { return {}; }}", nil
+		case 5:
+			// a result whose property throws when it is read
+			return "var o = {}; Object.defineProperty(o, 'p', {enumerable: true, get: function() { throw new Error('getter'); }}); o", nil
 		case 0:
 			return "throw new Error('boom')", nil
 		case 1:
@@ -89,7 +97,15 @@ func (c c14Case) script() (code string, want interface{}) {
 			return "function (", nil
 		}
 	case "loop":
-		switch c.Variant % 4 {
+		switch c.Variant % 6 {
+		case 4:
+			// past the limit inside a built-in function (one long nap)
+			// (the nap is the script's last step: no interpreter step
+			// follows at which an interrupt could be noticed)
+			return fmt.Sprintf("var y = x + 2; Env.sleep(%d)", int64(c.LimitMs)*1e6*4), nil
+		case 5:
+			// ... and in many short ones
+			return fmt.Sprintf("for (var i = 0; i < 400; i++) { Env.sleep(%d); } x + 2", int64(c.LimitMs)*1e6/20+1), nil
 		case 0:
 			return "while (true) {}", nil
 		case 1:
@@ -326,6 +342,12 @@ func runC14(c c14Case) *vlib.Outcome {
 		}
 	default: // value, slow
 		if res.err != nil || !res.complete {
+			if c.Source != "off" && c.Source != "locoff" && elapsed >= limit/2 {
+				// (a busy machine: the script may really have met
+				// its limit; no verdict)
+				o.Discard = true
+				return o
+			}
 			o.Fail("GOOD_SCRIPT_FAILED", "%s: a script that finishes within the limit failed: %v (after %v)", desc, res.err, elapsed)
 			break
 		}
